@@ -29,7 +29,7 @@ TRUSTED = ["modelled not verified: tokio Notify/Mutex/RwLock/mpsc semantics, the
            "schedule points are cfg-gated awaits added to tasks.rs (hook commits); with the cfg off the code is unchanged"]
 RULE = ("quick: every pick sequence of length <= 8 for one submitter + completer, every pick sequence of length 6 for two submitters (same id, "
         "different ids) + completer, 300 random pick sequences (1-4 submitters, length <= 40), each followed by a round-robin drain; 4 stress "
-        "runs of the real Pipeline (up to 64 submissions, duplicates, 4 worker threads); thorough: lengths 11 / 8, 3000 random, 30 stress runs. "
+        "runs of the real Pipeline (up to 64 submissions, duplicates, 4 worker threads); thorough: lengths 10 / 7, 1500 random, 12 stress runs. "
         "non-trivial = a schedule in which some submitter found no result at its check (token C, it had to wait) and every submitter returned")
 NONTRIVIAL_FLOOR = 50
 HARNESS_TIMEOUT = 1800
@@ -37,7 +37,7 @@ HARNESS_TIMEOUT = 1800
 
 def gen(tier, rng):
     quick = tier == "quick"
-    l1, l2, nrand, nstress = (8, 6, 300, 4) if quick else (11, 8, 3000, 30)
+    l1, l2, nrand, nstress = (8, 6, 300, 4) if quick else (10, 7, 1500, 12)
     for n in range(0, l1 + 1):
         for ps in itertools.product((0, 1), repeat=n):
             yield {"kind": "sched", "ids": [0], "picks": list(ps)}
